@@ -16,7 +16,8 @@ RULE = ('Generated: synthetic world (planet radius 0.05-3 RJ, log g 0.3-2.7, sta
         'in-memory tables of magnitude class zero / transparent / mixed / saturated, fill gases, optional '
         'inactive gas, optional CIA, Rayleigh and cloud deck) x path-length method (legacy / ray-traced) '
         'x optional table scaling s>1.  Non-trivial = at least two layers have a transmittance strictly '
-        'between 0.01 and 0.99 at some wavenumber; distinct by case hash.')
+        'between 0.01 and 0.99 at some wavenumber; distinct by case hash.'
+        ' Each case also carries 0-3 live updates (temperature / planet mass / planet radius / an abundance changed on the built model) after which every clause is judged again.')
 ASSUMPTIONS = [
     'path-length conventions: legacy method tangent Rp+dz0/2+z_l with shell tops Rp+dz0/2+z_k+dz_k/2; '
     'ray-traced method tangent Rp+z_l+dz_l/2 with shell tops at the layer boundaries',
